@@ -483,8 +483,12 @@ ElemNumber::getCountMatchPattern(
         {
             const GetCachedString   theMatchPatternString(executionContext);
 
+            // The target is a literal, so it must be quoted.  A
+            // processing instruction target cannot contain a quote.
             theMatchPatternString.get() = s_piString;
+            theMatchPatternString.get().append(1, XalanUnicode::charApostrophe);
             theMatchPatternString.get().append(contextNode->getNodeName());
+            theMatchPatternString.get().append(1, XalanUnicode::charApostrophe);
             theMatchPatternString.get().append(1, XalanUnicode::charRightParenthesis);
 
             countMatchPattern = executionContext.createMatchPattern(
